@@ -21,11 +21,21 @@ def register(prop):
          assumptions=["reference retrieval order = tier by tier (fewest transmits), longest first, newest first, while the message plus overhead fits",
                       "retransmit limit = RetransmitMult*ceil(log10(n+1)) with n sampled at each retrieval"])
 
-    prop("C17", [dict(scn="C17", quick=6000, thorough=400000, wall_quick=90, wall_thorough=1200)],
+    prop("C15", [dict(scn="C15", quick=200, thorough=20000, wall_quick=120, wall_thorough=2400), dict(scn="C17R", quick=80, thorough=4000, wall_quick=60, wall_thorough=900)],
+         "cluster plans: 3-6 encrypted real nodes (keys 16/24/32, protocol 1-5 i.e. encryption v0/v1, label, compression swarm), GossipVerifyOutgoing on; histories force every send site: "
+         "probes, acks, indirect pings + relayed acks + nacks and TCP fallback pings (UDP-only / one-way partition of one node), suspect-piggybacked pings, gossip single and compound, "
+         "best-effort and reliable user messages, user broadcasts, UpdateNode, both directions of push/pull, the stream error reply (provoked by a correctly sealed but undecodable "
+         "stream), key rotation steps in progress; oracle on EVERY buffer at the tap: packets (after the cleartext label header) open as version|nonce|AES-GCM under the sender's "
+         "current primary key with the label as AAD; every stream write is exactly the label header or encryptMsg|len|ciphertext covering the whole write, opened with an independent "
+         "stdlib AES-GCM; reach probes per (path, message type) seen sealed; non-trivial = >50 buffers checked; " + FP,
+         assumptions=["rotation steps are applied in the documented global order (new key installed everywhere before anyone uses it)"])
+    prop("C17", [dict(scn="C17", quick=6000, thorough=400000, wall_quick=90, wall_thorough=1200), dict(scn="C17R", quick=150, thorough=10000, wall_quick=100, wall_thorough=1500)],
          "object mode: generated histories of NewKeyring/AddKey/UseKey/RemoveKey/GetKeys/GetPrimaryKey over a pool of valid (16/24/32), invalid-length, "
          "duplicate, absent and primary keys on empty and populated rings, interleaved with decryptions that are parked by the scheduler between two keys "
          "of the list they iterate while the ring changes; reference model = ordered list, primary first; every key list ever returned is snapshotted and "
-         "re-compared after every later operation; non-trivial = >=3 ops; distinct = distinct op sequences",
+         "re-compared after every later operation; non-trivial = >=3 ops; distinct = distinct op sequences. C17R (cluster): 2-5 encrypted real nodes rotate old->new by the three "
+         "documented phases, each phase in a PRNG node order; after EVERY single step every ordered pair exchanges a best-effort and a reliable user message that must be delivered "
+         "exactly once; nobody is suspected (C04 monitor), every buffer on the wire opens under the sender's current primary key (C15 tap); in-flight traffic drains between phases only",
          assumptions=["a decryption counts only if its key stays installed for its whole duration (RemoveKey of such a key is skipped by the executor)"])
 
     prop("C01", [dict(scn="C01", quick=20000, thorough=1500000, wall_quick=100, wall_thorough=1500)],
@@ -134,6 +144,10 @@ SIM_NOTE = ("trusted base: Go runtime + testing/synctest fake clock, the harness
             "assumes the guarded yield sites are the relevant preemption points; seeded search, not proof")
 
 META = {
+ "C15": dict(
+    level_text="Wire-tap oracle over long seeded cluster histories that force every send site incl. error replies, relays, TCP fallback and rotation in progress: every buffer handed to the simulated transport must open as AES-GCM under the sender's current primary key (independent stdlib open). Stronger than scanning for known plaintext; a reach probe per (path, message type) shows which paths a batch exercised.",
+    design_ref="DESIGN.md §3 C15", level_note=SIM_NOTE + "; the static 'only caller' argument is another technique and is not claimed",
+    technique="deterministic simulation: wire tap over fault-driven cluster histories, independent AES-GCM open of every emitted buffer"),
  "C09": dict(
     level_text="Crash-point enumeration of both directions of real push/pull streams between two real nodes (every byte offset for short streams) with full-digest equality on the side whose inbound data was incomplete, plus seeded joins into live clusters with the mutuality oracle evaluated at the exact virtual instant Join returns while deliveries are held.",
     design_ref="DESIGN.md §3 C09", level_note=SIM_NOTE,
